@@ -66,6 +66,9 @@ type Component struct {
 	// cancelled holds sessions released while their activation's dataplane
 	// add was still in flight; the add's callback must then not commit.
 	cancelled map[string]struct{}
+	// preserved maps a session whose mapping was kept by the degraded restore
+	// branch (no committed activation yet) to the pool holding it.
+	preserved map[string]string
 
 	// Event queue: subscribers attach BEFORE the restore loop runs and
 	// queue events into pendingEvents; once restore completes drainQueue
@@ -790,6 +793,12 @@ func (c *Component) handleSessionRelease(data *events.SessionLifecycleEvent) {
 
 	c.actMu.Lock()
 	poolName, ok := c.sessionPoolMap[data.SessionID]
+	if preservedPool, kept := c.preserved[data.SessionID]; kept {
+		delete(c.preserved, data.SessionID)
+		if !ok {
+			poolName, ok = preservedPool, true
+		}
+	}
 	if _, inflight := c.activations[data.SessionID]; inflight {
 		// Activation in flight: cancel it; what it allocated is released below.
 		if c.cancelled == nil {
@@ -1155,6 +1164,15 @@ func (c *Component) restoreFromOpDB(ctx context.Context) error {
 					"session", key, "inside", mapping.InsideIP)
 				if rerr := c.pools.RestoreMappingIfAbsent(&mapping); rerr == nil {
 					c.reverse.Add(&mapping)
+					// Remember which pool holds the preserved mapping so that a
+					// release of this session frees it even if the session is
+					// never activated again.
+					c.actMu.Lock()
+					if c.preserved == nil {
+						c.preserved = make(map[string]string)
+					}
+					c.preserved[key] = mapping.PoolName
+					c.actMu.Unlock()
 				}
 				c.markRestoreDegraded(key)
 				restoreErrors = append(restoreErrors, key)
